@@ -9,7 +9,10 @@ use humphrey::http::proxy::proxy_request;
 use humphrey::http::{Request, Response, StatusCode};
 
 use std::net::ToSocketAddrs;
+#[cfg(not(humphrey_verif))]
 use std::sync::{Arc, Mutex, MutexGuard, PoisonError};
+#[cfg(humphrey_verif)]
+use humsim::sync::{Arc, Mutex, MutexGuard, PoisonError};
 use std::time::Duration;
 
 /// Represents a load balancer.
